@@ -25,7 +25,7 @@ PLAN = {'quick': {'gen': 8}, 'thorough': {'gen': 16, 'tests': 1, 'docs': 1}}
 REQUIRED_BUCKETS = ['range:identical', 'range:nested', 'range:overlap', 'range:disjoint', 'grid:uniform', 'grid:nonuniform',
                     'op:add', 'op:subtract', 'op:multiply', 'op:divide', 'op:power', 'sampling:min', 'sampling:left',
                     'sampling:right', 'sampling:float', 'fill:0', 'fill:nonzero', 'fill:pair', 'unit:nm', 'unit:um', 'unit:m',
-                    'unit:angstrom', 'unit:mixed', 'scalar', 'vector', 'method:quadratic', 'method:cubic', 'blackbody', 'density', 'update-sequence', 'values:integer', 'scalar:numpy-type', 'scalar:integer-values', 'scalar:narrow-float-values', 'same-spectrum:two-units', 'grid:decimal-step', 'grid:huge']
+                    'unit:angstrom', 'unit:mixed', 'scalar', 'vector', 'method:quadratic', 'method:cubic', 'blackbody', 'density', 'update-sequence', 'values:integer', 'scalar:numpy-type', 'scalar:integer-values', 'scalar:narrow-float-values', 'same-spectrum:two-units', 'grid:decimal-step', 'grid:huge', 'scalar-on-the-left:nonuniform-grid', 'scalar:boolean-values']
 REQUIRED_ANCHORS = ['probe:Spectrum.add', 'probe:Spectrum.subtract', 'probe:Spectrum.multiply', 'probe:Spectrum.divide', 'probe:Spectrum.power', 'anchor:Spectrum._ufunc', 'anchor:_interp_common', 'anchor:_sampling', 'anchor:Spectrum.sample']
 REQUIRED_ORACLES = ['grid', 'value=op(interp)', 'new-object', 'commutative', 'unit-agnostic', 'operands-physically-unchanged',
                     'scalar-elementwise']
@@ -71,7 +71,9 @@ def ufunc_oracle(ctx, args, kwargs, result, exc, pre):
         return
     sw, sv, su, sphys = pre['self']
     if not hasattr(other, 'wave'):
-        if exc is not None and sv.dtype.kind in 'biu' and np.ndim(other) == 0 and isinstance(other, (int, float, np.number)):
+        vec_ = (not isinstance(other, (str, bytes)) and np.ndim(other) == 1 and len(other) == len(sv)
+                and np.asarray(other).dtype.kind in 'biuf')
+        if exc is not None and sv.dtype.kind in 'biu' and ((np.ndim(other) == 0 and isinstance(other, (int, float, np.number))) or vec_):
             ctx.check(False, 'scalar-elementwise', f'scalar|integer-values|raises={type(exc).__name__}',
                       f'operation of an integer-valued spectrum with a scalar raised {type(exc).__name__}: {exc}', {'op': uf.__name__, 'other': repr(other)})
             return
@@ -523,10 +525,18 @@ def workload(ctx, lentil):
             ctx.bucket('scalar:narrow-float-values')
         if i % 7 == 5:
             # integer-typed value tables (hand-typed transmissions, 8-bit data): the operation is on the numbers they hold
-            dt = [np.int64, np.uint8, np.int8, np.int32][(i // 7) % 4]
+            dt = [np.int64, np.uint8, np.int8, np.int32, np.bool_][(i // 7) % 5]
             va = rng.integers(1, 10, size=na).astype(dt) if dt in (np.int64, np.int32) else rng.integers(60, 120, size=na).astype(dt)
-            A = in_unit(R, wa, va, unit)
             other = [2, -1, 100, 3.5, va.copy()][int(rng.integers(0, 5))]
+            if dt is np.bool_:
+                # a pass band held as True / False (wave >= 500): still the numbers 1 and 0
+                va = rng.random(na) < 0.6
+                va[int(rng.integers(0, na))] = True
+                other = [True, 2, va.copy(), 3.5][int(rng.integers(0, 4))]
+                if opn in ('divide', 'power') and isinstance(other, np.ndarray):
+                    opn = ['add', 'subtract', 'multiply'][i % 3]
+                ctx.bucket('scalar:boolean-values')
+            A = in_unit(R, wa, va, unit)
             kind = 2 if isinstance(other, np.ndarray) else 0
             ctx.bucket('scalar:integer-values')
         ctx.case({'scalar-op': opn, 'kind': kind, 'n': na, 'unit': unit, 'type': type(other).__name__},
@@ -585,14 +595,25 @@ def workload(ctx, lentil):
             ctx.check(False, 'unit-agnostic', f'unit|same-spectrum|raises={type(e).__name__}', str(e), {'units': [u1, u2]})
         # scalars on the left: 2 + s, sum([s, s]) - addition is commutative
         try:
-            s0 = R.Spectrum(w.copy(), v.copy())
+            wl_ = w
+            if (i // 9) % 2 and i % 9 != 2:     # (form 2, s + s, is a Spectrum-Spectrum operation: common grid)
+                # a tabulated curve: fine steps around a feature, coarse steps in the wings
+                wl_ = np.unique(np.concatenate([rng.uniform(w[0], w[-1], size=k - 2), [w[0], w[-1]]]))
+                if len(wl_) != k or np.min(np.diff(wl_)) < 1e-6:
+                    wl_ = w
+                else:
+                    ctx.bucket('scalar-on-the-left:nonuniform-grid')
+            s0 = R.Spectrum(wl_.copy(), v.copy())
             cands = [lambda: 2 + s0, lambda: np.float64(1.5) + s0, lambda: sum([s0, s0]), lambda: 2 * s0,
                      lambda: 2 - s0, lambda: 1 / s0, lambda: 2 ** s0, lambda: np.float64(3) / s0, lambda: np.ones(len(v)) - s0]
             wants = [v + 2, v + 1.5, 2 * v, 2 * v, 2 - v, 1 / v, 2 ** v, 3 / v, 1 - v]
             q = i % 9
             rs = cands[q]()
-            ctx.check(np.allclose(np.asarray(rs.value, float), wants[q], rtol=1e-12), 'commutative', 'commutative|scalar-on-the-left',
-                      'scalar (op) spectrum differs from spectrum (op) scalar', {'form': q})
+            rv_ = np.asarray(rs.value, float)
+            ctx.check(rv_.shape == wants[q].shape and np.allclose(rv_, wants[q], rtol=1e-12) and np.array_equal(np.asarray(rs.wave, float), wl_),
+                      'commutative', 'commutative|scalar-on-the-left',
+                      'scalar (op) spectrum differs from spectrum (op) scalar (element-wise on the unchanged wavelength grid)',
+                      {'form': q, 'n': [len(wl_), int(rv_.size)], 'uniform': wl_ is w})
         except Exception as e:
             ctx.check(False, 'commutative', f'commutative|scalar-on-the-left|raises={type(e).__name__}', str(e), {'form': i % 9})
     # ---- Blackbody operands ------------------------------------------------------------------------------
